@@ -327,11 +327,11 @@ impl Check for C14 {
         "C14"
     }
     fn rule(&self) -> String {
-        "case = a random token set of 2-8 tokens over the alphabet {a,b,c,0,1,=,<,-} (plus é λ ß Ω when Unicode classes are used): string literals and regex ASTs (literal, class, negated class, \\d \\w, \\p{L} \\p{Lu} \\p{Nd}, concatenation, alternation, * + ?, {m,n}), never nullable, overlapping prefixes forced in most sets; 50% with token(prec(p, ..)), p in {-1,0,1,2}; 25% with a word token and 1-3 keywords (no precedences there). Grammar = token soup source: repeat(choice(t1..tn)) with extras [\\s], so every token is valid in the single state. Inputs: EVERY string up to the largest length with <= 6000 strings over the set's alphabet + space, and 200 random strings <= 30. Oracle: own tokenizer working on the regex AST I generated (own match simulation; Unicode class membership from the regex crate on single characters): skip whitespace, collect (token, length > 0) matches, choose by the documented order - higher lexical precedence, then longest match, then string literal over pattern, then earlier in the grammar; a keyword only when the word token's whole match equals it. If every position yields a token the tree must be error-free with exactly that leaf sequence (kind, start, end); otherwise it must contain an error. evaluations = strings judged. Non-trivial: set with >= 1 pair of tokens matching a common string, input with >= 2 tokens; distinct by hash(grammar, string).".into()
+        "case = a random token set of 2-8 tokens over the alphabet {a,b,c,0,1,=,<,-} (plus é λ ß Ω when Unicode classes are used): string literals and regex ASTs (literal, class, negated class, \\d \\w, \\p{L} \\p{Lu} \\p{Nd}, concatenation, alternation, * + ?, {m,n}), never nullable, overlapping prefixes forced in most sets; 50% with token(prec(p, ..)), p in {-1,0,1,2}; 25% with a word token and 1-3 keywords (no precedences there). Grammar = token soup source: repeat(choice(t1..tn)) with extras [\\s], so every token is valid in the single state. Inputs: EVERY string up to the largest length with <= 6000 strings over the set's alphabet + space, and 200 random strings <= 30. Oracle: own tokenizer working on the regex AST I generated (own match simulation; Unicode class membership from the regex crate on single characters): skip whitespace, collect (token, length > 0) matches, choose by the documented order - higher lexical precedence, then longest match, then string literal over pattern, then earlier in the grammar; a keyword only when the word token's whole match equals it. If every position yields a token the tree must be error-free with exactly that leaf sequence (kind, start, end); otherwise it must contain an error. evaluations = strings judged. Context mode (22% of the cases): grammar source: choice(seq(prefix_i, choice(subset_i))) with 2-6 contexts over a pool of 2-3 (pattern P, literal L in L(P)) pairs and filler literals, each context holding none / only P / only L / both of every pair and a varying number of fillers; inputs = prefix_i followed (with and without a blank) by every string up to length 3 over {a,b,c,d,1} and every concatenation of two pool words; the documented order is applied to the tokens VALID in that context (literal over pattern, then rule order): the tree must be (source prefix token) with exactly that token, or contain an error when no valid token matches the whole rest. Non-trivial: set with >= 1 pair of tokens matching a common string, input with >= 2 tokens (context mode: an input that a token outside the context matches too); distinct by hash(grammar, string).".into()
     }
     fn cases(&self, tier: Tier) -> u64 {
         match tier {
-            Tier::Quick => 600,
+            Tier::Quick => 760,
             Tier::Thorough => 5000,
         }
     }
@@ -339,12 +339,15 @@ impl Check for C14 {
         vec![]
     }
     fn floors(&self) -> Vec<(&'static str, f64)> {
-        vec![("set:precedence", 0.25), ("set:keywords", 0.12), ("set:unicode", 0.10), ("grammar:accepted", 0.6), ("set:overlapping", 0.5)]
+        vec![("set:precedence", 0.18), ("set:keywords", 0.10), ("set:unicode", 0.07), ("grammar:accepted", 0.6), ("set:overlapping", 0.38), ("set:contexts", 0.15), ("contexts:contested", 0.10)]
     }
     fn watchdog_s(&self) -> u64 {
         300
     }
     fn run_case(&self, ctx: &mut Ctx, t: &mut Tape) {
+        if t.pct(22) {
+            return context_case(ctx, t);
+        }
         let keywords = t.pct(25);
         let unicode = !keywords && t.pct(22);
         let with_prec = !keywords && t.pct(55);
@@ -635,5 +638,226 @@ impl Check for C14 {
         if ctx.want_sample {
             ctx.out.sample = json!({"tokens": describe_tokens(), "inputs": inputs.len()});
         }
+    }
+}
+
+/// Context-dependent lexing: the documented rules choose among the tokens that are VALID at the position. Grammar =
+/// source: choice(seq(prefix_i, choice(subset_i))) over a pool of tokens built from pairs (pattern P_j, literal L_j with
+/// L_j in L(P_j)) plus fillers; each context holds, per pair, none / only P / only L / both. Lex states of different
+/// parse states may be shared by the generator only if that changes no result.
+fn context_case(ctx: &mut Ctx, t: &mut Tape) {
+    ctx.label("set:contexts");
+    let words: [&str; 8] = ["ab", "cd", "ba", "aa", "abc", "b", "cb", "a"];
+    let n_pairs = 2 + t.below(2);
+    let mut toks: Vec<Tok> = vec![];
+    let mut pairs: Vec<(usize, usize)> = vec![]; // (pattern token, literal token)
+    let lit_re = |w: &str| Re::Seq(w.chars().map(Re::Lit).collect());
+    let mut order: Vec<Tok> = vec![];
+    for j in 0..n_pairs {
+        let w1 = words[(t.below(words.len()) + j) % words.len()];
+        let w2 = words[(t.below(words.len()) + j + 3) % words.len()];
+        let pat = match t.weighted(&[60, 20, 20]) {
+            0 => Re::Alt(vec![lit_re(w1), lit_re(w2)]),
+            1 => Re::Plus(Box::new(Re::Class { items: vec![('a', 'c')], negated: false })),
+            _ => Re::Seq(vec![lit_re(w1), Re::Opt(Box::new(lit_re(w2)))]),
+        };
+        order.push(Tok { name: format!("p{j}"), def: TokDef::Pat(pat), prec: 0 });
+        order.push(Tok { name: format!("l{j}"), def: TokDef::Str(w1.to_string()), prec: 0 });
+    }
+    for f in 0..1 + t.below(3) {
+        order.push(Tok { name: format!("f{f}"), def: TokDef::Str(["1", "2", "3"][f].to_string()), prec: 0 });
+    }
+    // literals with the same text are one token for the generator: keep the first
+    let mut seen: Vec<String> = vec![];
+    order.retain(|x| match &x.def {
+        TokDef::Str(v) => {
+            if seen.contains(v) {
+                false
+            } else {
+                seen.push(v.clone());
+                true
+            }
+        }
+        _ => true,
+    });
+    // the order of the token rules is the documented last tie-break: vary it
+    if t.pct(50) {
+        order.reverse();
+    }
+    for x in order {
+        toks.push(x);
+    }
+    for j in 0..n_pairs {
+        let p = toks.iter().position(|x| x.name == format!("p{j}"));
+        let l = toks.iter().position(|x| x.name == format!("l{j}"));
+        if let (Some(p), Some(l)) = (p, l) {
+            pairs.push((p, l));
+        }
+    }
+    let fillers: Vec<usize> = (0..toks.len()).filter(|&k| toks[k].name.starts_with('f')).collect();
+    let prefixes = ["v", "w", "x", "y", "z", "u"];
+    let n_ctx = 2 + t.weighted(&[10, 25, 30, 25, 10]);
+    let mut subsets: Vec<Vec<usize>> = vec![];
+    for _ in 0..n_ctx {
+        let mut sub: Vec<usize> = vec![];
+        for &(p, l) in &pairs {
+            match t.weighted(&[20, 30, 30, 20]) {
+                0 => {}
+                1 => sub.push(p),
+                2 => sub.push(l),
+                _ => {
+                    sub.push(p);
+                    sub.push(l);
+                }
+            }
+        }
+        // fillers vary the size of the parse state (the generator assigns lex states in order of size)
+        let nf = t.below(fillers.len() + 1);
+        sub.extend(fillers.iter().take(nf));
+        if sub.is_empty() {
+            sub.push(pairs[0].0);
+        }
+        sub.sort();
+        sub.dedup();
+        subsets.push(sub);
+    }
+    let mut rules = serde_json::Map::new();
+    let members: Vec<Value> = subsets.iter().enumerate().map(|(i, sub)| json!({"type": "SEQ", "members": [{"type": "STRING", "value": prefixes[i]}, {"type": "CHOICE", "members": sub.iter().map(|&k| json!({"type": "SYMBOL", "name": toks[k].name})).collect::<Vec<_>>()}]})).collect();
+    rules.insert("source".into(), json!({"type": "CHOICE", "members": members}));
+    for x in &toks {
+        if !subsets.iter().any(|sub| sub.iter().any(|&k| toks[k].name == x.name)) {
+            continue;
+        }
+        let inner = match &x.def {
+            TokDef::Str(v) => json!({"type": "STRING", "value": v}),
+            TokDef::Pat(r) => {
+                let mut p = String::new();
+                r.render(&mut p, true);
+                json!({"type": "PATTERN", "value": p})
+            }
+        };
+        rules.insert(x.name.clone(), inner);
+    }
+    let name = format!("lc{}", t.u16());
+    let g = json!({"name": name, "rules": Value::Object(rules), "extras": [{"type": "PATTERN", "value": "\\s"}], "conflicts": [], "precedences": [], "externals": [], "inline": [], "supertypes": []});
+    let gtext = serde_json::to_string_pretty(&g).unwrap();
+    let tl = match lang::temp_lang(&gtext, OptLevel::default()) {
+        Ok(l) => l,
+        Err(e) => {
+            ctx.label("grammar:rejected");
+            ctx.label(format!("rejected:{}", e.lines().next().unwrap_or("").chars().take(36).collect::<String>()));
+            return;
+        }
+    };
+    ctx.label("grammar:accepted");
+    let l = &tl.language;
+    let mut parser = Parser::new();
+    parser.set_language(l).unwrap();
+    let describe = || -> String {
+        let mut s = String::new();
+        for x in &toks {
+            let d = match &x.def {
+                TokDef::Str(v) => format!("'{v}'"),
+                TokDef::Pat(r) => {
+                    let mut p = String::new();
+                    r.render(&mut p, true);
+                    format!("/{p}/")
+                }
+            };
+            s.push_str(&format!("{}={} ", x.name, d));
+        }
+        for (i, sub) in subsets.iter().enumerate() {
+            s.push_str(&format!("| after '{}': {{{}}} ", prefixes[i], sub.iter().map(|&k| toks[k].name.clone()).collect::<Vec<_>>().join(",")));
+        }
+        s
+    };
+    // every string over {a,b,c,d,1,2,3} up to length 3 plus the pool words and their concatenations
+    let sigma = ['a', 'b', 'c', 'd', '1'];
+    let mut texts: Vec<Vec<char>> = vec![];
+    let mut layer: Vec<Vec<char>> = vec![vec![]];
+    for _ in 0..3 {
+        let mut next = vec![];
+        for s in &layer {
+            for c in sigma {
+                let mut x = s.clone();
+                x.push(c);
+                next.push(x);
+            }
+        }
+        texts.extend(next.iter().cloned());
+        layer = next;
+    }
+    for a in words {
+        for b in words {
+            texts.push(format!("{a}{b}").chars().collect());
+        }
+    }
+    texts.push(vec!['2']);
+    texts.push(vec!['3']);
+    let mut shadowing = false;
+    for (i, sub) in subsets.iter().enumerate() {
+        for s in &texts {
+            // tokens of this context that match the whole text; the documented order picks among them
+            let mut best: Option<usize> = None;
+            let mut n_all = 0;
+            for (k, x) in toks.iter().enumerate() {
+                let full = match &x.def {
+                    TokDef::Str(v) => v.chars().eq(s.iter().copied()),
+                    TokDef::Pat(r) => ends(r, s, 0).contains(&s.len()),
+                };
+                if !full {
+                    continue;
+                }
+                n_all += 1;
+                if !sub.contains(&k) {
+                    continue;
+                }
+                let key = |k: usize| (matches!(toks[k].def, TokDef::Str(_)), -(k as i64));
+                if best.map(|b| key(k) > key(b)).unwrap_or(true) {
+                    best = Some(k);
+                }
+            }
+            // the interesting inputs: a token that is not valid here matches the text too
+            let contested = best.is_some() && n_all >= 2;
+            shadowing |= contested;
+            for spaced in [true, false] {
+                let body: String = s.iter().collect();
+                let text = if spaced { format!("{} {}", prefixes[i], body) } else { format!("{}{}", prefixes[i], body) };
+                let tree = parser.parse(&text, None).unwrap();
+                ctx.out.inner += 1;
+                if contested {
+                    ctx.out.inner_hashes.push(fnv(format!("{gtext}|{text}").as_bytes()));
+                }
+                let xt = XTree::build(&tree);
+                let has_err = tree.root_node().has_error() || xt.any_error();
+                let start = text.len() - body.len();
+                match best {
+                    None => {
+                        if !has_err {
+                            ctx.fail("C14:context:accepts_invalid_token", format!("after '{}' no valid token matches {body:?}, but {text:?} parses without error: {}\n{}", prefixes[i], xt.render(l, 30), describe()));
+                            return;
+                        }
+                    }
+                    Some(k) => {
+                        if has_err {
+                            ctx.fail("C14:context:rejects_valid_token", format!("after '{}' the valid token {} matches {body:?}, but {text:?} has an error: {}\n{}", prefixes[i], toks[k].name, xt.render(l, 30), describe()));
+                            return;
+                        }
+                        let got: Vec<(String, usize, usize)> = xt.leaves().filter(|n| n.parent.is_some()).map(|n| (kind_name(l, n.kind_id).to_string(), n.start, n.end)).collect();
+                        let want = vec![(prefixes[i].to_string(), 0, 1), (toks[k].name.clone(), start, text.len())];
+                        if got != want {
+                            ctx.fail("C14:context:token_choice_differs", format!("{text:?}: lexer produced {got:?}, the documented rules applied to the tokens valid after '{}' give {want:?}\n{}", prefixes[i], describe()));
+                            return;
+                        }
+                    }
+                }
+            }
+        }
+    }
+    ctx.label_if(shadowing, "contexts:contested");
+    ctx.out.nontrivial = shadowing;
+    ctx.out.hash = fnv(gtext.as_bytes());
+    if ctx.want_sample {
+        ctx.out.sample = json!({"tokens_and_contexts": describe(), "inputs": texts.len() * subsets.len() * 2});
     }
 }
